@@ -1367,3 +1367,92 @@ func recordQueueFields(p *Program, ag ctrlAgent) []string {
 	}
 	return out
 }
+
+// invalidateInflightRule: Invalidate is legal from the paused state, and paused
+// is not drained — requests accepted before the Pause are frozen in flight. For
+// the two agents where that was shown to matter (by probe, see
+// findings/C25-invalidate-while-paused), the Invalidate handler must take the
+// in-flight work into account: refuse (or defer) while it exists, or make the
+// sweep and the later completion agree.
+//
+//	mem/vm/tlb          an outstanding miss whose answer is (or will be) in the
+//	                    Bottom buffer is installed after Enable with the OLD
+//	                    mapping: the handler must look at MSHREntries /
+//	                    HasRespondingMSHR / the Bottom port
+//	mem/cache/writeback a locked block (write or fill in the bank pipeline) is
+//	                    marked invalid and re-validated when the frozen work
+//	                    completes, next to the copy fetched in between: the sweep
+//	                    must look at IsLocked/ReadCount, or the handler at the
+//	                    quiescence fields
+//
+// (write-through cache: reviewed, its bank finalizers never re-validate a block;
+// MMU cache: not examined.)
+func invalidateInflightRule(c *Ctx, rule string, rels []string) {
+	p := c.P
+	want := map[string][]string{
+		"mem/vm/tlb":          {"MSHREntries", "HasRespondingMSHR"},
+		"mem/cache/writeback": {"IsLocked", "ReadCount", "Transactions"},
+	}
+	for _, rel := range rels {
+		ctor, cmap := ctrlCtor(p, rel)
+		if ctor == nil {
+			c.Unknown(rule, rel, 0, "control-response constructor not found")
+			continue
+		}
+		inval := constVal(p, mcp, "CmdInvalidate")
+		inPkg := func(fn *ssa.Function) bool { return pkgOfFn(fn) == pkgPath(rel) }
+		var handlers []*ssa.Function
+		for _, f := range p.SrcFuncs(func(pp string) bool { return pp == pkgPath(rel) }) {
+			for _, b := range f.Blocks {
+				for _, in := range b.Instrs {
+					call, ok := in.(ssa.CallInstruction)
+					if !ok || call.Common().StaticCallee() == nil || call.Common().StaticCallee().Object() != ctor {
+						continue
+					}
+					args := call.Common().Args
+					if i, has := cmap["Command"]; has && i < len(args) {
+						if cst, isC := args[i].(*ssa.Const); isC && cst.Value != nil && cst.Value.ExactString() == inval {
+							handlers = append(handlers, f)
+						}
+					}
+				}
+			}
+		}
+		if len(handlers) == 0 {
+			c.Unknown(rule, rel, 0, "Invalidate handler not found")
+			continue
+		}
+		reads := false
+		for g := range p.ModCG().Reach(handlers, inPkg) {
+			for _, b := range g.Blocks {
+				for _, in := range b.Instrs {
+					v, ok := in.(ssa.Value)
+					if !ok {
+						continue
+					}
+					if f := FieldOf(v); f != nil {
+						for _, w := range want[rel] {
+							if f.Name() == w {
+								// a read, not the reset of the field
+								if u, isU := v.(*ssa.FieldAddr); isU {
+									for _, ref := range *u.Referrers() {
+										if _, isLoad := ref.(*ssa.UnOp); isLoad {
+											reads = true
+											if os.Getenv("AKITA_DE_DEBUG") != "" {
+												fmt.Fprintln(os.Stderr, "INV", rel, SSAFuncKey(g), f.Name())
+											}
+										}
+									}
+								} else {
+									reads = true
+								}
+							}
+						}
+					}
+				}
+			}
+		}
+		c.Check(reads, rule, rel+":Invalidate", handlers[0].Pos(), "the Invalidate handler takes in-flight work into account",
+			"Invalidate is accepted whenever the agent is paused and sweeps only what is cached; requests frozen in flight by the Pause ("+strings.Join(want[rel], "/")+") are not looked at, so after Enable their completion re-installs what the acknowledged Invalidate was meant to remove")
+	}
+}
